@@ -140,4 +140,22 @@ PROPS = {
             ".lz inputs are the upstream tests/files/good-*.lz (no lzip encoder); gz/bz2 only if gzip/bzip2 are on PATH",
             "timeouts are inconclusive; stderr is not compared"],
     ),
+    "C19": dict(
+        engine="py", level="exploration",
+        technique="property-based testing (Hypothesis) of the xz command line against a branching model of a directory written from xz.1: name mapping incl. compress->decompress round trip, lstat before/after comparison of contents and metadata, runs as root and as user nobody",
+        level_text="Generated-input search: thousands of (file names, kinds, modes, owners, timestamps, pre-existing targets) x (format, -S suffix, -k -f -c -Q -q, argument style, uid) scenarios per run, each executed with the real tool in a scratch directory and compared with the model; sampled, not exhaustive. Right level because the quantifier (all byte names x modes x flag combinations) is unbounded while each evaluation is an exact, cheap end-to-end observation.",
+        level_note="Trusted: the model of xz.1 in py/c19.py (where the manual does not decide - order of several refusal reasons, a name that is exactly a suffix, built-in suffixes with --format=raw, status of a failed group copy - every documented-compatible outcome is accepted); Linux/ext4 semantics of lstat, O_EXCL, relatime; Python's lzma module and the tool's own stdin->stdout path as content references.",
+        suites=[dict(module="c19", min_nontrivial_quick=800, min_nontrivial_thorough=10000)],
+        rule=("scenario = 1..3 files (byte names biased to suffixes, their prefixes, names equal to a suffix, leading '-'/'.', control and non-UTF-8 bytes, up to 255 bytes; regular / hard-linked / symlink / dangling / FIFO / directory / missing; mode 0000..7777; owner and group "
+              "root/nobody/other; ns timestamps; optional pre-existing target: file, symlink, directory) x one xz invocation (compress or decompress; xz, lzma, raw, auto; -S dotted/dot-less/equal to/ending in a built-in/invalid; -k -f -c -Q -q; names after --, as ./name, absolute, "
+              "--files0; uid root or nobody), compress runs mostly followed by the decompressing invocation (round trip). Oracle: names, contents, mode/owner/group/atime/mtime of targets, untouched sources and bystanders (inode, content, mode, mtime, ctime, link count), removal "
+              "of sources, exit status 0/1/2 (--no-warn), stdout. Non-trivial: a name ends in (a >=2 byte prefix of) a recognised suffix or equals one, or a file is not a plain 0644 regular file, or a target pre-exists; distinct = hash(scenario)."),
+        assumptions=[
+            "every random choice comes from Hypothesis seeded with VERIF_SEED; a tool timeout (20 s watchdog) is counted as inconclusive, never as a verdict",
+            "a custom suffix equal to a built-in suffix is that built-in suffix (-S .txz => .tar); with --format=raw only the -S suffix is certain",
+            "when the group cannot be copied only 'never broader' is asserted for the mode and exit status 0 or 2 are both accepted",
+            "scratch file system is ext4 with ns timestamps and relatime; the suite runs as root and user 'nobody' exists",
+            "FIFO sources are not combined with --stdout; a pre-existing directory target is not combined with --force",
+            "held on everything explored; generated-input search never establishes absence"],
+    ),
 }
